@@ -17,27 +17,35 @@ func main() {
 	threads := flag.Int("threads", 8, "goroutines per driver")
 	flag.Parse()
 	total := 0
+	// several rounds per driver, each on freshly built schemas and freshly installed configuration, so that the
+	// very first (cold) concurrent use of every shared object happens many times, not once
+	const rounds = 10
 	for _, drv := range c08drv.Drivers(*threads) {
-		sh := drv.Setup()
-		var wg sync.WaitGroup
-		for t := 0; t < drv.Threads; t++ {
-			wg.Add(1)
-			go func(t int) {
-				defer wg.Done()
-				for k := 0; k < *iters; k++ {
-					var out []string
-					func() {
-						defer func() { recover() }()
-						sh.Thread(t, &out, nil)
-					}()
-				}
-			}(t)
+		for r := 0; r < rounds; r++ {
+			sh := drv.Setup()
+			var wg sync.WaitGroup
+			start := make(chan struct{})
+			for t := 0; t < drv.Threads; t++ {
+				wg.Add(1)
+				go func(t int) {
+					defer wg.Done()
+					<-start
+					for k := 0; k < *iters/rounds; k++ {
+						var out []string
+						func() {
+							defer func() { recover() }()
+							sh.Thread(t, &out, nil)
+						}()
+					}
+				}(t)
+			}
+			close(start)
+			wg.Wait()
+			if sh.Cleanup != nil {
+				sh.Cleanup()
+			}
 		}
-		wg.Wait()
-		if sh.Cleanup != nil {
-			sh.Cleanup()
-		}
-		total += drv.Threads * *iters
+		total += drv.Threads * (*iters / rounds) * rounds
 	}
 	fmt.Printf("racepass: %d thread-iterations completed\n", total)
 }
